@@ -144,3 +144,59 @@ theorem lex_total (t : Bytes) : ∃ r, lex t = some r ∧ r.toks.length ≤ t.le
   exact ⟨r, hr, by simpa using hle⟩
 
 end Lex
+
+namespace Lex
+
+/-- a token is the slice of the input at its recorded offset -/
+def IsSlice (whole : Bytes) (tok : Tok) : Prop :=
+  (whole.drop tok.pos).take tok.text.length = tok.text ∧ tok.pos + tok.text.length ≤ whole.length
+
+theorem scan_slices (whole : Bytes) : ∀ (fuel : Nat) (t : Bytes) (pos : Nat) (acc : List Tok) (r : Result),
+    whole.drop pos = t → pos ≤ whole.length → (∀ tok ∈ acc, IsSlice whole tok) → scan fuel t pos acc = some r →
+    ∀ tok ∈ r.toks, IsSlice whole tok := by
+  intro fuel
+  induction fuel with
+  | zero => intro t pos acc r _ _ _ h; simp [scan] at h
+  | succ fuel ih =>
+    intro t pos acc r hd hle hacc h
+    unfold scan at h
+    cases t with
+    | nil =>
+      simp at h
+      subst h
+      intro tok htok
+      exact hacc tok (by simpa using htok)
+    | cons c rest =>
+      simp only at h
+      have hlen : (c :: rest).length = whole.length - pos := by rw [← hd]; simp
+      split at h
+      · -- white space
+        apply ih _ _ acc r ?_ ?_ hacc h
+        · rw [← hd, List.drop_drop]
+        · have := spanLen_le B.isWs (c :: rest)
+          omega
+      · split at h
+        · simp at h
+          subst h
+          intro tok htok
+          exact hacc tok (by simpa using htok)
+        · rename_i k n hone
+          have hb := one_bounds (c :: rest) k n hone
+          apply ih _ _ _ r ?_ ?_ ?_ h
+          · rw [← hd, List.drop_drop]
+          · omega
+          · intro tok htok
+            simp only [List.mem_cons] at htok
+            rcases htok with rfl | htok
+            · refine ⟨?_, ?_⟩
+              · simp only [hd, List.length_take]
+                rw [Nat.min_eq_left hb.2]
+              · simp only [List.length_take]
+                omega
+            · exact hacc tok htok
+
+/-- every token of a lexed input is the slice of the input at its offset -/
+theorem lex_slices (text : Bytes) (r : Result) (h : lex text = some r) : ∀ tok ∈ r.toks, IsSlice text tok :=
+  scan_slices text _ text 0 [] r (by simp) (by omega) (by intro tok ht; simp at ht) h
+
+end Lex
